@@ -15,7 +15,7 @@ CHECKS = {
  "C02": dict(cat="other", tech="abstract interpretation of optimised LLVM IR; icmp/fcmp predicate normal forms incl. lexicographic two-halves merging",
    text="Every comparison operator of every vector type x configuration must normalise to icmp/fcmp with the predicate the C++ scalar operator has for that element type (signedness, IEEE unordered behaviour) on the same lane, packed in the mask representation; decides all lane values.",
    note=TB, ref="4/C02"),
- "C10": dict(cat="other", tech="abstract interpretation of optimised LLVM IR; fadd/fsub/fmul/fdiv/sqrt primitive forms, sign-bit form for negation",
+ "C10": dict(cat="other", tech="abstract interpretation of optimised LLVM IR, compiled both with clang's default floating-point model and with -frounding-math (constrained intrinsics, nothing folded under the default-environment assumption); fadd/fsub/fmul/fdiv/sqrt primitive forms, sign-bit form for negation; other forms compared by exact IEEE evaluation of the closed forms under four rounding modes",
    text="Every float vector type x configuration: + - * / (compound, ++/--) and sqrt must be exactly one IEEE primitive (no fast-math flag) on the same lanes of both operands; unary minus must be the sign-bit flip. The primitive is the correctly rounded operation under the current MXCSR mode by definition.",
    note=TB, ref="4/C10"),
  "C03": dict(cat="other", tech="abstract interpretation of optimised LLVM IR; boolean normal forms over mask bits under the representation invariant (assume on inputs, guarantee on outputs)",
@@ -36,7 +36,7 @@ CHECKS = {
  "C09": dict(cat="other", tech="architectural byte-footprint analysis over optimised LLVM IR with an ISA table classifying every memory-touching intrinsic (size, fault suppression)",
    text="Same instance set as C08: the set of (base, byte range, read/write, fault-suppressed) accesses of each instance must lie inside [p, p+min(n,width)*size), be empty for n==0, and for gather/scatter contain only elements addressed by active lanes with sign-extended indices. MASKMOVDQU counts with its full 16-byte non-suppressed footprint (known finding).",
    note=TB + "; SDM fault-suppression statements for masked moves/gathers", ref="4/C09"),
- "C11": dict(cat="other", tech="rounding-primitive normal forms (SDM ROUND/RNDSCALE immediates) + whole-catalogue effect inventory with bit-level provenance of MXCSR writers",
+ "C11": dict(cat="other", tech="rounding-primitive normal forms (SDM ROUND/RNDSCALE immediates), in the default and the -frounding-math compilation; emulations (incl. those that switch on the MXCSR rounding control read by STMXCSR) compared by exact IEEE evaluation of the closed forms under four rounding modes; whole-catalogue effect inventory with bit-level provenance of MXCSR writers",
    text="(value) ceil/floor/trunc/nearbyint/rint of every float type x configuration must be exactly one rounding primitive with the immediate / libm function of that name on the same lane (a different primitive is refuted from a value table, incl. mode-independent immediates for nearbyint/rint); round-half-away and SSE2 cvtt-based emulations are UNDECIDED. (fenv) every wrapper of the catalogue is scanned for MXCSR / fenv writers in the resolved IR: each LDMXCSR must write back bits 6..15 exactly as read by the preceding STMXCSR; a positive control requires the known writers (quiet comparisons below AVX) to be found.",
    note=TB + "; quick tier scans the float families, thorough every family", ref="4/C11"),
  "C13": dict(cat="other", tech="finite partition decision procedures over closed forms: field-aligned partition (sign x exponent x mantissa intervals) and, for compares assembled from sub-field pieces, the general segment partition (lane cut at every atom boundary, representatives realising every per-segment trichotomy); fcmp predicate normal forms",
@@ -45,8 +45,8 @@ CHECKS = {
  "C17": dict(cat="other", tech="byte/bit provenance over optimised LLVM IR for every provided conversion pair",
    text="convert<>, converting constructors, mask conversions and bit_cast for every provided pair of types of every configuration must be the identity on the representation (truth value per lane for masks, k-mask upper bits clear); width-1 cross-size conversions must be exactly trunc / sext-iff-signed / zext.",
    note=TB + "; bit_cast analysed in the memcpy variant (C++11, clang)", ref="4/C17"),
- "C05": dict(cat="other", tech="bisimulation equality of optimised function bodies (A-ireq), trap-effect inventory with non-zero-divisor proof over terms, closed-form comparison of loop-free emulations",
-   text="NARROW CLAIM. Decided for every integer vector type x configuration: (a) x/y, x%y, /=, %= have bodies bisimilar to div(x,y).quot/.rem, so div returns the same pair as / and %; (b) no multi-lane div contains a hardware division whose divisor can be zero (term-level non-zero proof), positive control on width-1; (c) loop-free division emulations are compared as closed forms with truncating division on the lane for non-zero divisors (refutable by witness). NOT decided: value exactness of the long-division loops and reciprocal emulations (UNDECIDED, listed).",
+ "C05": dict(cat="other", tech="bisimulation equality of optimised function bodies (A-ireq), trap-effect inventory with non-zero-divisor proof over terms, closed-form comparison of the emulations (bounded loops unrolled by the IR->term interpreter until the back-edge condition normalises to false)",
+   text="NARROW CLAIM. Decided for every integer vector type x configuration: (a) x/y, x%y, /=, %= have bodies bisimilar to div(x,y).quot/.rem, so div returns the same pair as / and %; (b) no multi-lane div contains a hardware division whose divisor can be zero (term-level non-zero proof), positive control on width-1; (c) division emulations - loop-free ones and long-division loops with a constant trip bound, unrolled - are compared as closed forms with truncating division on the lane for non-zero divisors (8-bit table-based forms by truth table; otherwise refutable by witness incl. cross-lane probes). NOT decided: value exactness of the long-division and reciprocal emulations where no witness is found (UNDECIDED, listed).",
    note=TB + "; lane independence of the SSE2..AVX2 loops is not claimed (cross-lane loop exit condition)", ref="4/C05"),
  "C20": dict(cat="proof", tech="effect inventory over the resolved IR of every prefetch instantiation (no load/store/call other than llvm.prefetch; operand and stride checks)",
    text="Every instantiation of prefetch_read/prefetch_write (3 levels x untyped/typed x default n) at -O1 and -O2 in each analysed configuration contains only address arithmetic, control flow and llvm.prefetch(p+i, rw, 3-level, data) with a positive constant stride; llvm.prefetch has no effect on program behaviour (LangRef) and PREFETCHh never faults (SDM).",
